@@ -47,8 +47,8 @@ class PeerLog(object):
         self.by_serial[reply_serial].append((rtype, name or "", idx, copy))
 
 
-def judge(result, peer, closed_by_us_in_teardown=True):
-    """returns (findings, per-call signatures, counters)"""
+def judge(result, peer, closed_by_us_in_teardown=True, rc=None):
+    """returns (findings, per-call signatures, counters).  rc: the case is a reply-then-close case (see the end of this file)"""
     F = []
     sigs = []
     cnt = collections.Counter()
@@ -60,6 +60,16 @@ def judge(result, peer, closed_by_us_in_teardown=True):
             by_call[e["c"]].append(e)
     disc_seen = bool(result.get("disconnected"))       # the client had noticed the loss before the final look
     peer_closed = peer.closed or disc_seen
+    # reply-then-close: the harness saw, before its first read, the peer's hangup pending on the socket together with
+    # unread bytes - every reply the peer wrote has ARRIVED before the close and nothing of it had been read yet
+    rc_ok = False
+    if rc:
+        chk = [e for e in evs if e["k"] == "chk"]
+        rc_ok = bool(chk) and chk[0]["a"] == 1 and chk[0]["b"] > 0 and peer.closed
+        cnt["rc-precondition-verified" if rc_ok else "rc-precondition-missed"] += 1
+
+    def arrived(idx, serial):
+        return rc_ok and any(m_idx == idx for _, _, m_idx, _ in peer.by_serial.get(serial, []))
 
     # ---- serials
     seen = {}
@@ -98,6 +108,11 @@ def judge(result, peer, closed_by_us_in_teardown=True):
             return "bad"
         if rt == 3 and name in LOCAL_NAMES and not m:
             # locally generated
+            if phase < 2 and arrived(idx, serial):
+                F.append(Finding("local-error-although-reply-arrived", "%s of call %d (serial %d) yielded a local %s error although the peer's "
+                                 "reply to it (%r) was in the socket buffer before the peer's close and before the client's first read"
+                                 % (where, idx, serial, name.rsplit(".", 1)[-1], peer.by_serial.get(serial)), idx))
+                return "bad"
             if phase == 2 or peer_closed:
                 kind = "local-disconnect" if (name == DISCONNECTED or not is_finite(timeout_ms)) else "local-timeout-or-disconnect"
                 return kind
@@ -259,6 +274,15 @@ def judge(result, peer, closed_by_us_in_teardown=True):
                                  "healthy, everything the peer wrote has been dispatched and libdbus no longer has a timeout for it "
                                  "registered (peer sent for this serial: replies %r, non-replies %r)"
                                  % (idx, serial, timeout_ms, peer.by_serial.get(serial, []), peer.spoofs.get(serial, [])), idx))
+            elif result.get("quiescent") and arrived(idx, serial):
+                # reply-then-close: the reply was received with the same read that saw the end of the stream; the connection
+                # was then dispatched until nothing was left.  The known weakness about calls WITHOUT a reply at disconnect
+                # (next branch) is a different thing: this call's reply had arrived.
+                F.append(Finding("never-completed:reply-arrived-before-close", "call %d (serial %d, timeout %d ms): the peer wrote its reply "
+                                 "(%r) and closed; the client's first read found the reply bytes and the hangup pending together; the "
+                                 "connection was dispatched until the Disconnected signal had been delivered and no event source was "
+                                 "left, and the call never completed (no notify, get_completed FALSE)"
+                                 % (idx, serial, timeout_ms, peer.by_serial.get(serial)), idx))
             elif result.get("quiescent"):
                 # not a matter of waiting: the connection is lost, its Disconnected signal was dispatched, nothing is
                 # queued and no timeout is registered - no event can complete this call any more
@@ -274,8 +298,20 @@ def judge(result, peer, closed_by_us_in_teardown=True):
             pk = "+".join(sorted(set(("ret" if a == 2 else "err") + ("-dup" if d else "") for a, _, _, d in ps)))
         if peer.spoofs.get(serial):
             pk += "+spoof-" + "-".join(sorted(set("sig" if a == 4 else "call" for a, _, _ in peer.spoofs[serial])))
-        sigs.append(("call", how, crel, tuple(sorted(observers)), "short" if is_finite(timeout_ms) else "inf", pk, peer_closed))
+        sigs.append(("call", how, crel, tuple(sorted(observers)), "short" if is_finite(timeout_ms) else "inf", pk, peer_closed)
+                    + (("rc",) if rc else ()))
         cnt["completed:" + how] += 1
+        if rc_ok:
+            if arrived(idx, serial):
+                cnt["rc-calls-answered"] += 1
+                if how in ("peer-return", "peer-error"):
+                    cnt["rc-answered-completed-with-reply"] += 1
+                    via_block = any(e["k"] == "bend" for e in es)
+                    cnt["rc-completed-via:" + ("block" if via_block else "dispatch")] += 1
+                    for o in observers:
+                        cnt["rc-observed-by:" + o] += 1
+            else:
+                cnt["rc-calls-unanswered"] += 1
     if result.get("timer_remove_unknown"):
         F.append(Finding("timeout-removed-twice", "libdbus asked the application to remove a DBusTimeout that was not added (or twice), %d times"
                          % result["timer_remove_unknown"], -1))
@@ -372,3 +408,17 @@ def judge_multi_blocker(result, peer, mb, writes, t_written_us):
                                     "<=1s" if lag <= 1000 else "<=2.5s" if lag <= 2500 else ">2.5s")] += 1
         cnt["mb-completion-lag-max-ms"] = int(lag)
     return cnt
+
+
+# ----------------------------------------------------------------------------- reply, then close at once
+#
+# Scenario class (judge(..., rc=...)): the peer answers k >= 1 outstanding calls in one write() and closes its socket
+# immediately afterwards, while the client is not reading.  The harness (op C) waits, without reading, until the hangup
+# is pending on the socket and records that unread bytes are pending with it, so its next read consumes the replies and
+# the end of the stream in one iteration.  The calls are observed through notify callbacks / get_completed + steal_reply
+# after dispatching (a blocking wait on one of them is allowed as the first reader).
+# Oracle: "completes exactly once: with the reply whose reply-serial matches it, or with a locally generated error if
+# ... the connection closes first" - the reply did not come after the close, so every answered call completes with that
+# reply: not with a local Disconnected / NoReply error (local-error-although-reply-arrived) and not never
+# (never-completed:reply-arrived-before-close).  Calls the peer did not answer stay with the ordinary rules.  No
+# waiting time is involved: the harness dispatches until the connection is quiescent.
